@@ -7,7 +7,7 @@ CFG = cfg('C04', refine=['Refine_encrypt'], extract='Ex_C03', driver='c03',
                'thorough: every bit of 10 messages over 3DES/CAST5/Blowfish/AES/Camellia x passphrase/RSA/ECDH(25519, P-256/384/521, secp256k1)/mixed recipients; '
                'extension, over-long / short header length, block swaps / deletions / duplications, MDC replaced / zeroed / removed, data emptied, version octet, '
                'tag 18 -> 9 re-framing incl. realigned downgrade forms, session-key packets reordered / duplicated / removed / foreign, splices between two messages '
-               'with the same and with different session keys, session keys without data (PGPError), exception CLASS at the decrypt stage compared with the model on every rejected input, faults made WITH the session key that damage exactly one gate condition (repeat octets, MDC header, digest range, digest length, MDC position), wrong passphrases, every non-recipient key; same-object histories (decrypt(right) then wrong / empty / one zero octet / non-recipient key on ONE message object, wrong-right-wrong-right, all recipients then strangers): a wrong secret must raise whatever was done with the object before, each step compared with the model; deterministic search for the legacy tag-9 downgrade finding. distinct = distinct (message, mutation, recipient)',
+               'with the same and with different session keys, session keys without data (PGPError), the algorithm octet of every PKESK set to unlisted ids / listed ids without ciphertext class / the other listed encryption algorithms (quick and thorough: kept packet re-exported octet for octet, passphrase recipients still get the original, the addressed key is refused), exception CLASS at the decrypt stage compared with the model on every rejected input, faults made WITH the session key that damage exactly one gate condition (repeat octets, MDC header, digest range, digest length, MDC position), wrong passphrases, every non-recipient key; same-object histories (decrypt(right) then wrong / empty / one zero octet / non-recipient key on ONE message object, wrong-right-wrong-right, all recipients then strangers): a wrong secret must raise whatever was done with the object before, each step compared with the model; deterministic search for the legacy tag-9 downgrade finding. distinct = distinct (message, mutation, recipient)',
           trusted=['Spec/Rfc4880_enc.v (RFC 5.13/5.14 MDC validity)',
                    'primitive oracle: hashlib + cryptography/OpenSSL called directly by tools/harness/c03.py'],
           assumptions=['NOT a theorem: that no other ciphertext / session-key packet / passphrase passes the SHA-1 gate or the 16-bit checksum (SHA-1, CFB, RSA, AES-key-wrap strength); '
@@ -25,7 +25,7 @@ TEXT = ('Rocq theorems (Props/C04.v, closed under the global context): Integrity
         'repeated prefix octets match (equal to the RFC 4880 valid-MDC transcription), rejects everything shorter than an MDC packet, refuses only with PGPDecryptionError; '
         'decrypt_sk accepts IFF the key has the cipher\'s length and the 16-bit checksum matches, and every other outcome of it is PGPDecryptionError (C04_pkesk_open_reject_kinds, C04_pkesk_decrypt_sk_raise_kinds / _failure_is_decrypt); '
         'the unpadder accepts IFF the string is PKCS#5-padded (any amount: RFC 6637 section 8; C04_unpad_accept_iff); PGPKey.decrypt / PGPMessage.decrypt yield a plaintext only through those gates, '
-        'a non-recipient key and session keys without data raise PGPError (C04_key_decrypt_no_data_raises), the failure classes of PGPKey.decrypt are enumerated (C04_key_decrypt_failure_kinds), the passphrase loop converts every caught failure into PGPDecryptionError. PARTIAL: gate STRUCTURE is proved, gate STRENGTH (SHA-1/CFB) is not; '
+        'a non-recipient key and session keys without data raise PGPError (C04_key_decrypt_no_data_raises), a session key packet kept as opaque octets for another recipient never yields a session key (C04_unknown_recipient_does_not_open, C04_opaque_only_never_opens), the failure classes of PGPKey.decrypt are enumerated (C04_key_decrypt_failure_kinds), the passphrase loop converts every caught failure into PGPDecryptionError. PARTIAL: gate STRUCTURE is proved, gate STRENGTH (SHA-1/CFB) is not; '
         'the harness enumerates every single-bit flip, truncation, splice, MDC replacement, wrong secret on real ciphertexts against the code and the extracted model.',
         'DESIGN.md 5 C04',
         'machine-checked proof in Rocq (Coq 8.16.1) of the gate logic + exhaustive fault enumeration with extracted-model correspondence')
